@@ -267,7 +267,16 @@ for _ho in ("on", "off"):
 
 
 def gen_answer(rng):
-    k = rng.randrange(16)
+    k = rng.randrange(19)
+    if k >= 16:
+        # a LARGE record set (a CDN name, a round-robin pool): every address counts, also the one far down the list
+        n = rng.choice([17, 20, 41, 64, 130, 300])
+        pub = ["%08x" % q(93, 184, (i >> 8) & 255, i & 255) for i in range(1, n + 1)]
+        if k == 16:
+            return {"err": False, "ips": pub}
+        bad = rng.choice(["%08x" % rng.choice(PRIV4), "%032x" % rng.choice(PRIV6), "%08x" % q(8, 8, 8, 8)])
+        pos = rng.choice([n - 1, n - 1, 16, 17, n // 2 + 9])
+        return {"err": False, "ips": pub[:pos] + [bad] + pub[pos:]}
     h4 = lambda v: "%08x" % v
     h6 = lambda v: "%032x" % v
     if k == 0:
